@@ -63,9 +63,9 @@ func TestC16(t *testing.T) {
 	defer r.Close()
 	carve, carveNames := carveFor("C16")
 	r.Meta(vc.Meta{
-		Level: "exploration",
-		Rule: "case = one round: N distinct producer/consumer pairs (different signals, options, histories; all inputs and expectations built before any goroutine starts) are first run ALONE, one after the other, recording the canonical hash of every decoded batch, then run CONCURRENTLY, one goroutine each, started on a barrier with Gosched between calls. Oracle: (a) zero race-detector reports with a repository frame (reports are read from the GORACE log files, classified by stack, de-duplicated); (b) every stream's per-batch hash sequence under concurrency equals its sequential one. Non-trivial = round in which calls were observed executing while >=2 other streams were inside the library. Distinct = round fingerprint (stream scripts/options).",
-		Assumptions: []string{"the race detector only reports races on executed, actually overlapping accesses; absence of reports is not race freedom", "child processes run with GOMAXPROCS 16 or 4"},
+		Level:           "exploration",
+		Rule:            "case = one round: N distinct producer/consumer pairs (different signals, options, histories; all inputs and expectations built before any goroutine starts) are first run ALONE, one after the other, recording the canonical hash of every decoded batch, then run CONCURRENTLY, one goroutine each, started on a barrier with Gosched between calls. Oracle: (a) zero race-detector reports with a repository frame (reports are read from the GORACE log files, classified by stack, de-duplicated); (b) every stream's per-batch hash sequence under concurrency equals its sequential one. Non-trivial = round in which calls were observed executing while >=2 other streams were inside the library. Distinct = round fingerprint (stream scripts/options).",
+		Assumptions:     []string{"the race detector only reports races on executed, actually overlapping accesses; absence of reports is not race freedom", "child processes run with GOMAXPROCS 16 or 4"},
 		RaceIsViolation: true,
 		Gates: map[string]map[string]int{
 			"quick":    {"calls_overlapping_with_2_other_streams": 500, "streams_run_concurrently": 150},
